@@ -9,6 +9,7 @@ import (
 	"io"
 	"runtime/debug"
 	"sort"
+	"strconv"
 	"strings"
 	"sync/atomic"
 
@@ -375,6 +376,11 @@ func (e *Env) callbacks() gkvlite.StoreCallbacks {
 	if needCmp {
 		cb.KeyCompareForCollection = func(name string) gkvlite.KeyCompare {
 			atomic.AddInt64(&e.cbN[8], 1)
+			// the comparator the collection had in the state being loaded (after a re-open the
+			// live model IS the durable state); the per-name table is the fallback
+			if mc, ok := e.M.Live.Colls[name]; ok && mc.Cmp != "" {
+				return mc.Cmp.Func()
+			}
 			if c, ok := e.Cmps[name]; ok {
 				return c.Func()
 			}
@@ -668,17 +674,20 @@ func (e *Env) release(st *gkvlite.Store, c *gkvlite.Collection, it *gkvlite.Item
 
 func belowAll(m *model.Coll) []byte {
 	// a key that compares <= every valid key under every comparator we use
-	switch m.Cmp {
-	case model.CmpRev:
+	switch {
+	case m.Cmp == model.CmpRev:
 		return bytes.Repeat([]byte{0xff}, 70000)
 	}
-	return []byte{}
+	return []byte{} // (the empty key is a prefix of every key: smallest under bytes, lenlex and rot:k)
 }
 
 func aboveAll(m *model.Coll) []byte {
-	switch m.Cmp {
-	case model.CmpRev:
+	switch {
+	case m.Cmp == model.CmpRev:
 		return []byte{}
+	case strings.HasPrefix(string(m.Cmp), "rot:"):
+		k, _ := strconv.Atoi(string(m.Cmp)[4:])
+		return bytes.Repeat([]byte{byte(255 - k)}, 70000) // the byte that maps to 0xff after the rotation
 	}
 	return bytes.Repeat([]byte{0xff}, 70000)
 }
